@@ -17,6 +17,7 @@ pub mod rt {
 }
 pub use rt::Type as RuntimeType;
 #[verifier::external_body] pub struct FileOrLib { x: usize }
+impl Clone for FileOrLib { #[verifier::external_body] fn clone(&self) -> (r: Self) ensures r == *self { unimplemented!() } }
 #[verifier::external_body] pub struct Path { x: usize }
 #[verifier::external_body] pub struct Error { x: usize }
 pub struct TyID(pub usize);
@@ -33,6 +34,7 @@ type Alias = Identifier;
 //@ type sylt-parser/src/parser.rs struct TypeConstraint eq=none
 //@ type sylt-parser/src/parser.rs type ParseResult
 //@ type sylt-parser/src/parser.rs struct Context keep=Copy clone=keep
+//@ type sylt-tokenizer/src/tokenizer.rs struct PlacedToken eq=none
 
 // R-next: Verus wants the `Sized` bound on a trait whose method returns Self.
 pub trait Next: Sized { fn next(&self) -> Self; }
@@ -197,6 +199,15 @@ impl<'a> Context<'a> {
     pub closed spec fn tok(&self) -> Token {
         if self.curr < self.tokens@.len() { self.tokens@[self.curr as int] } else { Token::EOF }
     }
+
+//@ fn sylt-parser/src/parser.rs new
+//@   in <'a> Context<'a>
+//@   props C07
+//@ end
+//@ fn sylt-parser/src/parser.rs comments_since_last_statement
+//@   in <'a> Context<'a>
+//@   mode assumed
+//@ end
 
 //@ fn sylt-parser/src/parser.rs peek
 //@   in <'a> Context<'a>
@@ -472,6 +483,31 @@ impl Next for Prec {
 //@   endspec
 //@   loop 1
         invariant pall_shape(statements@), //# C07 block.loop1.statements_so_far_have_shape
+//@   endloop
+//@ end
+//@ fn sylt-parser/src/parser.rs module
+//@   props C07
+//@   attr #[verifier::exec_allows_no_decreases_clause]
+//@   ret r
+//@   rewrite equivalent
+//@- let tokens: Vec<_> = token_stream.iter().map(|p| p.token.clone()).collect();
+//@+ let mut tokens: Vec<Token> = Vec::new();
+//@+ for p in token_stream.iter() { tokens.push(p.token.clone()); }
+//@   why map/collect into a Vec pushes one result per element, in order
+//@   endrewrite
+//@   rewrite equivalent
+//@- let spans: Vec<_> = token_stream.iter().map(|p| p.span).collect();
+//@+ let mut spans: Vec<Span> = Vec::new();
+//@+ for p in token_stream.iter() { spans.push(p.span); }
+//@   why as above
+//@   endrewrite
+//@   spec
+        ensures r.1 is Ok ==> module_ok(r.1->Ok_0), //# C07 module.every_statement_of_a_module_is_a_top_level_statement_with_the_parser_shape
+            r.1 is Err ==> r.1->Err_0.len() >= 1, //# C07 module.an_error_result_is_never_an_empty_list
+//@   endspec
+//@   loop 3
+//@| while !matches!(ctx.token(), T::EOF)
+        invariant all_top(statements@), //# C07 module.loop.statements_so_far_are_top_level_statements_with_the_parser_shape
 //@   endloop
 //@ end
 //@ fn sylt-parser/src/parser.rs parse_type
